@@ -427,7 +427,7 @@ pub fn run(ctx: &mut Ctx) {
                         steps.push(Step::Join(RxPlan::default()));
                         let h = History { cfg: DevCfg { region: *region, join_bias: if reg.fixed() && rng.bool() { Some((1 + rng.below(8) as u8, 1 + rng.below(3) as usize)) } else { None }, front: *front, board: (14, 0) },
                             activation: if *otaa { Activation::Otaa } else { Activation::Abp { fcnt_up: 0, fcnt_down: None } },
-                            board: Board { tx_ms: if front.is_nb() { [0u32, 3, 1500, 0x7FFF_FE00, 0xFFFF_FC18, 0xFFFF_FFFF][(off as usize + delay as usize) % 6] } else { [0, 3, 1500][(off as usize) % 3] }, lead_ms: timing, buffer_ms: timing / 2, nb_offset_ms: [0i32, -10, 25, -200][(delay as usize) % 4], nb_duration_ms: [100 + timing, 100 + timing, 999, 1000, 1001, 1500, 2500][(off as usize * 16 + delay as usize) % 7], nb_async_tx: rng.bool(), snr: 0 },
+                            board: Board { tx_ms: if front.is_nb() { [0u32, 3, 1500, 0x7FFF_FE00, 0xFFFF_FC18, 0xFFFF_FFFF][(off as usize + delay as usize) % 6] } else { [0, 3, 1500][(off as usize) % 3] }, lead_ms: timing, buffer_ms: timing / 2, nb_offset_ms: [0i32, -10, 25, -200][(delay as usize) % 4], nb_duration_ms: [100 + timing, 100 + timing, 999, 1000, 1001, 1500, 2500][(off as usize * 16 + delay as usize) % 7], nb_async_tx: rng.bool(), snr: 0, nb_meddle: if (off + delay) % 3 == 0 { 0x5A5A_A5A5u32.rotate_left(off as u32 + delay as u32) } else { 0 } },
                             rng_script: vec![rng.next_u32(), rng.next_u32()], rng_seed: rng.next_u64(), steps };
                         // the hook enumeration on the state before the final re-join: run on a prefix
                         let mut hp = h.clone();
